@@ -77,7 +77,7 @@ def unit_delta_h(twin=False):
 def unit_analytic(twin=False):
     q = "Phreeqc::read_analytical_expression_only"
     ev = A.enum_values_compiled("global_structures.h", ["T_A1", "T_A6"])
-    c0 = _scan_ctx(); c0.enum_values.update(ev)
+    c0 = _scan_ctx(); c0.enum_values.update(ev); c0.log_stores = True
     fn, ex, fin, info = U.run_function(READ, q, modes={0: "unroll"}, ctx=c0)
     r = U.new_unit("C01.read_analytical_expression_only.six_coefficients_in_order", READ, q, fn)
     r.add("six_terms(T_A6-T_A1+1==6)", DISCHARGED if ev["T_A6"] - ev["T_A1"] + 1 == 6 else FAILED, "syntactic", 0, repr(ev), kind="structural")
@@ -94,17 +94,14 @@ def unit_analytic(twin=False):
             want = want[::-1]
         ok = len(ptrs) == 6 and all(B.z3_prove([], tm.eq(p, w))[0] == "proved" or p is w or repr(p) == repr(w) for p, w in zip(ptrs, want))
         r.add("scanned_into_log_k[0..5]_in_order#%d" % n, DISCHARGED if ok else FAILED, "trace", 0, repr(ptrs)[:200])
+        before = s.events[:s.events.index(sc[0])]
+        zeroed = sorted(int(e.args[0].args[0]) for e in before if e.name == "store" and e.recv is lk and tm.isnum(e.args[0]) and tm.isnum(e.args[1]) and e.args[1].args[0] == 0)
+        r.add("all_six_slots_zeroed_before_the_scan#%d" % n, DISCHARGED if zeroed == [0, 1, 2, 3, 4, 5] else FAILED, "symex", 0, repr(zeroed))
         okf = repr(sc[0].args[1]).count("%lf") == 6
         r.add("format_has_six_conversions#%d" % n, DISCHARGED if okf else FAILED, "trace", 0, repr(sc[0].args[1])[:80])
         for hy, few in cases(list(s.pc), tm.lt(sc[0].result, tm.num(1, "I"))):
             okr = tm.isnum(s.ret) and s.ret.args[0] == (0 if few else 1)
             r.add("%s#%d" % ("nothing_read.ERROR" if few else "at_least_one_read.OK", n), DISCHARGED if okr else FAILED, "symex", 0, repr(s.ret))
-    # zeroed first: the unrolled loop stores 0 into each slot before the scan
-    zero_before = True
-    fnn = A.find_function(READ, q)
-    lp = [x for x in A.walk(fnn) if x.get("kind") == "ForStmt"]
-    t = text_of(READ, lp[0]) if lp else ""
-    r.add("all_six_zeroed_before_reading", DISCHARGED if lp and "log_k[j]=0.0" in t and text_of(READ, lp[0]["inner"][2]) == "j<num_terms" and text_of(READ, lp[0]["inner"][0]).rstrip(";") == "j=0" else FAILED, "syntactic", 0, t[:80], kind="structural")
     r.add("reach", DISCHARGED if n >= 2 else UNDECIDED, "symex", 0, str(n), kind="vacuity")
     r.assumptions += ["the callers pass &logk[T_A1] (read_species / read_phases / read_named_logk, not under this contract)", "sscanf stores the numbers it reads, in argument order"]
     return r
